@@ -80,7 +80,7 @@ def container_rule(repo: Repo, rep, P: str):
     # id: name[:4] padded with spaces to 4
     idtxt = norm(writes[0]).replace(" ", "")
     want_id = f"{name}[:4]+b''*(4-len({name}[:4]))"
-    if idtxt == want_id.replace("b''", "b' '"):
+    if idtxt == want_id:
         rep.ok(f"{P}.R1", construct, norm(writes[0]), "id truncated/padded to exactly 4 bytes")
     else:
         rep.violation(f"{P}.R1", construct, norm(writes[0]), "the chunk id must be the name cut and space-padded to 4 bytes", where)
@@ -116,7 +116,7 @@ def writer_desc(w: codec.WRow) -> Optional[Dict[str, Any]]:
             except struct.error:
                 return None
         return {"kind": "pack", "sizes": tuple(sizes), "variable": p.fmt.variable, "codes": p.fmt.codes, "order": p.fmt.order}
-    if p.shape in ("cstring", "fixedstring", "raw", "empty", "join"):
+    if p.shape in ("cstring", "fixedstring", "raw", "empty", "join", "text"):
         return {"kind": p.shape, "length": p.length}
     return None
 
